@@ -89,8 +89,11 @@ def execOp (sp : Spec Int Int) (cls : String) (dim : Nat) (cfg : Obj) (s : Sess)
     match s.ckpt with
     | none => none
     | some st => (loadCheckpoint sp st s.run).map (fun r => { s with run := r })
-  else if op = "badload" then
-    match loadCheckpoint sp [("not_a_state_key", .int 0)] s.run with
+  else if op.startsWith "badload" then
+    -- `badload` / `badload:<attribute>`: a dictionary whose only key is not a state key (an arbitrary name, or an
+    -- attribute the sampler does have: `initial_point`, `_samples`, `_acc`, …)
+    let key := match op.splitOn ":" with | [_, k] => k | _ => "not_a_state_key"
+    match loadCheckpoint sp [(key, .int 0)] s.run with
     | none => some { s with run := ensureInit sp s.run, out := s.out ++ ["refused"] }  -- `_ensure_initialized()` ran before `set_state` raised
     | some r => some { s with run := r, out := s.out ++ ["accepted"] }
   else if op = "reinit" then some { s with run := reinitialize sp s.run }
@@ -131,6 +134,7 @@ def runExp (sp : Spec Int Int) (cls : String) (dim : Nat) (cfg : Obj) (ops : Lis
 
 def validOp (op : String) : Bool :=
   op ∈ ["get", "save", "load", "loadsame", "badload", "reinit", "init", "loadtype", "loadpart"] ||
+  (op.startsWith "badload:" && (op.splitOn ":").length = 2) ||
   (op.startsWith "s" && ((op.drop 1).toString.toNat?).isSome) ||
   (op.startsWith "s" && (match (op.drop 1).toString.splitOn "b" with
       | [n, b] => n.toNat?.isSome && (match b.toNat? with | some k => decide (k > 0) | none => false)
